@@ -55,8 +55,8 @@ def random_cases(ctx, per_model, maxlen=64, npool=12):
         return prog
 
     def pool_for(nf, nonneg):
-        lo = 0 if nonneg else -4
-        pool = [[r.randint(lo, 13) for _ in range(nf)] for _ in range(npool)]
+        lo = 0 if nonneg else -8      # -2.0 .. 4.5: rows below, inside and above the training range
+        pool = [[r.randint(lo, 18) for _ in range(nf)] for _ in range(npool)]
         for _ in range(2):
             pool[r.randrange(npool)] = list(pool[r.randrange(npool)])
         # two extreme rows (1e2 .. 1e4 times the data scale, random signs per coordinate / per row)
@@ -92,6 +92,24 @@ def random_cases(ctx, per_model, maxlen=64, npool=12):
     return out
 
 
+def order_random(ctx, cases):
+    """one seeded random permutation of the 8-row order pool per (type, instance): a copy of the TLC-generated
+    ascending case whose long batch is shuffled with ctx.rng (VERIF_SEED)"""
+    out = []
+    for c in cases:
+        if c["inp"].get("fam") != "asc":
+            continue
+        perm = list(range(1, 9))
+        ctx.rng.shuffle(perm)
+        d = json.loads(json.dumps(c))
+        d["inp"]["fam"] = "rand"
+        for e in d["inp"]["prog"]:
+            if len(e["ids"]) == 8:
+                e["ids"] = perm
+        out.append(d)
+    return out
+
+
 def nontrivial(case):
     """a case is non-trivial when its batch has >= 2 rows (order / duplicates / layout can matter)"""
     prog = case["inp"]["prog"]
@@ -111,6 +129,7 @@ def run(ctx):
         vlib.tlc_mc(ctx, "Predict", {"constants": consts, "invariants": INVS}, coverage_actions=ACTIONS)
     cases = vlib.tlc_gen(ctx, "Gen_Predict", {"constants": GEN[ctx.tier], "invariants": ["Emit"]})
     ctx.exhaustive = True
+    cases += order_random(ctx, cases)
     if not ctx.quick:
         cases += random_cases(ctx, 10)
     vlib.number(cases)
@@ -129,7 +148,9 @@ def run(ctx):
     ctx.rule = ("cases = predictor type (20 base types + multi-target / multi-class / Platt wrappers with real and mock members) "
                 "x fitted instance (3) x every batch of pool ids up to the tier's length (empty, single, duplicates, all orders), "
                 "enumerated by TLC (Gen_Predict); each case = the rows alone + the batch through every store x calling form x "
-                "memory layout (up to 50 calls) + the single-observation API [+ seeded random batches <= 64 rows in the thorough "
+                "memory layout (up to 60 calls) + the single-observation API; plus, per type x instance, 7 orderings (ascending, "
+                "descending, 3 zig-zags, a formula permutation, a seeded random permutation) of an 8-row pool with rows below / "
+                "inside (5 segments) / above the training range and an extreme row, through 3-6 calls [+ seeded random batches <= 64 rows in the thorough "
                 "tier]; non-trivial = batch of >= 2 rows; distinct by (type, instance, float type, members, pool, batch)")
     ctx.trusted = ["TLC + CommunityModules Json", "Elem tables (self-checked by MC_Elem in this run)",
                    "harness encoders and mock members (harness/src/bin/c03.rs)"]
